@@ -51,6 +51,11 @@ func (s *Solver) start() error {
 		return err
 	}
 	s.Send("(set-option :print-success false)\n(set-option :produce-models true)\n")
+	if strings.Contains(s.bin, "z3") {
+		// after the first pop z3's combined solver only uses its weak incremental core: let it fall
+		// back to the full bit-vector tactic solver after 100 ms
+		s.Send("(set-option :combined_solver.solver2_timeout 100)\n(set-option :combined_solver.solver2_unknown 2)\n")
+	}
 	return nil
 }
 
